@@ -737,6 +737,12 @@ class Effect(DaeObject):
         tecnode = profilenode.find(tag('technique'))
         tecnode.set('sid', 'common')
 
+        # an <image> local to the profile was added to the document's images when the
+        # effect was loaded, so it is written in <library_images>; left here as well it
+        # would give the document two elements with the same id
+        for imgnode in profilenode.findall(tag('image')):
+            profilenode.remove(imgnode)
+
         self._fixColorValues()
 
         for param in self.params:
